@@ -40,9 +40,9 @@ ASSUMPTIONS = ["stages named by the property end where print_pqr is entered; I/O
                "outside its stage list and are not injected",
                "a fault swallowed by the code's own handler followed by a complete file is a legitimate success"]
 MIN = {"quick": {"success_cells": 330, "natural_faults": 25, "stage_faults_fired": 70, "line_faults_fired": 120,
-                 "failed_runs_checked": 200, "audit_events": 200},
+                 "failed_runs_checked": 200, "audit_events": 200, "option_lattice_runs": 150},
        "thorough": {"success_cells": 3000, "natural_faults": 200, "stage_faults_fired": 600, "line_faults_fired": 2500,
-                    "failed_runs_checked": 3000, "audit_events": 3000}}
+                    "failed_runs_checked": 3000, "audit_events": 3000, "option_lattice_runs": 5000}}
 
 NA_SUPPORT = {"AMBER": "ACGUT", "CHARMM": "ACGUT", "TYL06": "ACGUT", "PARSE": "ACGU"}
 SENTINEL = b"SENTINEL previous contents of the output path\n" * 3
@@ -99,7 +99,8 @@ def cases(tier, seed):
             out.append({"kind": "cell", "ff": "PARSE", "resn": resn, "pos": "C", "seed": seed + rep, "opts": ["--neutralc"]})
     nmix = 40 if tier == "quick" else 8000
     for spec in workload.standard_cases(tier, seed, nmix, nmix, frag_share=0.0,
-                                        p={"variant_prob": 0.0, "na_prob": 0.15, "waters": [0, 3], "no_variants": []}):
+                                        p={"variant_prob": 0.0, "na_prob": 0.15, "waters": [0, 3], "no_variants": [],
+                                           "alias_prob": 0.15, "icode_prob": 0.15, "gap_prob": 0.1}):
         spec["kind"] = "mixed"
         spec["opts"] = [f"--ff={spec['ff']}"]
         out.append(spec)
